@@ -429,7 +429,13 @@ class Quantity:
             if isinstance(inputs[1], Quantity):
                 if not bool(us[1].dimensionless):
                     raise DimensionalityError(us[1], "dimensionless")
-            return Quantity(uf(*mags), upow(us[0], mags[1]))
+            k = mags[1]
+            if hasattr(k, "ndim"):
+                if k.ndim != 0:
+                    # pint refuses an exponent array on a quantity with units
+                    raise DimensionalityError(us[0], "dimensionless")
+                k = k.elem(())
+            return Quantity(uf(*mags), upow(us[0], k))
         if name in ("negative", "positive", "absolute"):
             return Quantity(uf(*mags), us[0])
         if name in ("add", "subtract", "maximum", "minimum", "hypot"):
